@@ -83,6 +83,7 @@ func (ctx *Context) Parse(value string) error {
 	d.Config = ctx.Config
 	d.ctx = ctx
 	d.pendingCustomDice = nil
+	d.getOffset = func() int { return p.pt.offset }
 	ctx.Error = nil
 	ctx.NumOpCount = 0
 	ctx.detailCache = ""
@@ -113,6 +114,7 @@ func (ctx *Context) Parse(value string) error {
 		return err
 	}
 
+	p.cur.data.dropStaleCode()
 	ctx.code = p.cur.data.code
 	ctx.codeIndex = p.cur.data.codeIndex
 
